@@ -11,7 +11,7 @@ use std::path::{Path, PathBuf};
 use std::time::Duration;
 
 pub const SPELLINGS: [&str; 5] = ["plain", "dot", "dotdot", "symlink", "mixed"];
-pub const LIBS: [&str; 7] = ["none", "dir", "file", "off", "dir+named", "file+named", "two-files-cycle"];
+pub const LIBS: [&str; 8] = ["none", "dir", "file", "off", "dir+named", "file+named", "two-files-cycle", "two-dirs-in-command-line-order"];
 
 #[derive(Clone, Debug)]
 pub struct Config {
@@ -29,6 +29,8 @@ pub struct Config {
     /// Some(k): file k carries a version pragma newer than the supported one (reported as an
     /// error; the file and its includes are processed all the same).
     pub new_pragma: Option<usize>,
+    /// Some(k): file k has a syntax error (it is read once, however many paths reach it).
+    pub bad_syntax: Option<usize>,
 }
 
 impl Config {
@@ -36,7 +38,7 @@ impl Config {
         self.lib != 3 && self.lib_includers >> i & 1 == 1
     }
     fn lib_resolves(&self) -> bool {
-        matches!(self.lib, 1 | 2 | 4 | 5 | 6)
+        matches!(self.lib, 1 | 2 | 4 | 5 | 6 | 7)
     }
 }
 
@@ -95,6 +97,9 @@ pub fn build(cfg: &Config, dir: &Path) -> Built {
             text.push_str("    component cl = TL();\n    cl.in <== in;\n");
         }
         text.push_str("}\n");
+        if cfg.bad_syntax == Some(i) {
+            text.push_str("template @ broken\n");
+        }
         std::fs::write(dir.join(format!("f{i}.circom")), &text).expect("write");
         let _ = std::os::unix::fs::symlink(format!("f{i}.circom"), dir.join(format!("alias{i}.circom")));
         texts.push(text);
@@ -103,6 +108,14 @@ pub fn build(cfg: &Config, dir: &Path) -> Built {
     std::fs::write(
         dir.join("libdir/flib.circom"),
         format!("{lib_head}template TL() {{\n    signal input in;\n    signal output out;\n    out <-- in;\n}}\n"),
+    )
+    .expect("write");
+    // A second directory that also provides `flib.circom` (its TL has two outputs), sorted
+    // before `libdir` but given after it on the command line.
+    std::fs::create_dir_all(dir.join("alibdir")).expect("mkdir");
+    std::fs::write(
+        dir.join("alibdir/flib.circom"),
+        "pragma circom 2.1.4;\ntemplate TL() {\n    signal input in;\n    signal output out;\n    signal output out2;\n    out <-- in;\n    out2 <-- in;\n}\n",
     )
     .expect("write");
     std::fs::create_dir_all(dir.join("libdir2")).expect("mkdir");
@@ -122,10 +135,39 @@ pub fn build(cfg: &Config, dir: &Path) -> Built {
         1 | 4 => args.extend(["-L".to_string(), "libdir".to_string()]),
         2 | 5 => args.extend(["-L".to_string(), "libdir/flib.circom".to_string()]),
         6 => args.extend(["-L".to_string(), "libdir/flib.circom".to_string(), "-L".to_string(), "libdir2/glib.circom".to_string()]),
+        7 => args.extend(["-L".to_string(), "libdir".to_string(), "-L".to_string(), "alibdir".to_string()]),
         _ => {}
     }
     args.extend(["--verbose".to_string(), "--level".to_string(), "warning".to_string()]);
     Built { named, args, failing_include: failing, texts }
+}
+
+/// The in-process twin restricted to "no file is read twice".
+fn check_files_once(cfg: &Config, built: &Built, dir: &Path, mut out: Vec<Violation>, case: &Value) -> Vec<Violation> {
+    let files: Vec<PathBuf> = built.named.iter().map(|n| dir.join(n)).collect();
+    if let Ok(loaded) = runner::load(&files, &[], Curve::Bn254) {
+        let lib = loaded.runner.file_library();
+        let mut seen: Vec<String> = Vec::new();
+        let mut id = 0;
+        while let Ok(file) = lib.to_storage().get(id) {
+            let name = file.name().to_string();
+            seen.push(std::fs::canonicalize(&name).map(|p| p.display().to_string()).unwrap_or(name));
+            id += 1;
+        }
+        let mut dedup = seen.clone();
+        dedup.sort();
+        dedup.dedup();
+        if dedup.len() != seen.len() {
+            out.push(Violation {
+                signature: "file-read-twice".into(),
+                what: format!("a file with a syntax error (f{}.circom) that is reachable through several paths was read and parsed more than once", cfg.bad_syntax.unwrap_or(0)),
+                case: case.clone(),
+                expected: "each distinct file once in the file library".into(),
+                observed: format!("{seen:?} args {:?}", built.args),
+            });
+        }
+    }
+    out
 }
 
 fn reachable(cfg: &Config) -> BTreeSet<usize> {
@@ -164,6 +206,11 @@ pub fn check(cfg: &Config, dir: &Path, case: &Value) -> Vec<Violation> {
             format!("{}\n{}", crate::infra::truncate(&run.stderr, 300), describe()),
         );
         return out;
+    }
+    if cfg.bad_syntax.is_some() {
+        // A file that does not parse: which definitions survive is C02's subject; here only
+        // "each file once" (below, in-process) and termination are judged.
+        return check_files_once(cfg, &built, dir, out, case);
     }
     // Analysed templates = templates of the named files (each exactly once).
     let mut analysed: Vec<String> = run.analyzed.iter().map(|(_, n)| n.clone()).collect();
@@ -279,6 +326,7 @@ pub fn check(cfg: &Config, dir: &Path, case: &Value) -> Vec<Violation> {
         1 | 4 => vec![dir.join("libdir")],
         2 | 5 => vec![dir.join("libdir/flib.circom")],
         6 => vec![dir.join("libdir/flib.circom"), dir.join("libdir2/glib.circom")],
+        7 => vec![dir.join("libdir"), dir.join("alibdir")],
         _ => vec![],
     };
     if let Ok(loaded) = runner::load(&files, &libs, Curve::Bn254) {
@@ -337,7 +385,7 @@ pub fn configs(tier: Tier) -> Vec<Config> {
                         continue;
                     }
                     // library configurations on a slice of the graphs in quick, all in thorough
-                    let libs: Vec<usize> = if tier == Tier::Thorough || edges % 8 == 3 { vec![3, 0, 1, 2, 4, 5, 6] } else { vec![3] };
+                    let libs: Vec<usize> = if tier == Tier::Thorough || edges % 8 == 3 { vec![3, 0, 1, 2, 4, 5, 6, 7] } else { vec![3] };
                     for lib in libs {
                         // Which files include the library file: only f0, or (for resolvable
                         // configurations) every subset in thorough / all files in quick.
@@ -349,20 +397,21 @@ pub fn configs(tier: Tier) -> Vec<Config> {
                             vec![1, (1u32 << n) - 1]
                         };
                         for lib_includers in masks {
-                            v.push(Config { n, edges, spelling, named, lib, missing: None, lib_includers, new_pragma: None });
+                            v.push(Config { n, edges, spelling, named, lib, missing: None, lib_includers, new_pragma: None, bad_syntax: None });
                         }
                     }
                 }
                 // one file with a version pragma that is too new (every file in turn)
-                if edges != 0 && (tier == Tier::Thorough || edges % 2 == 1) {
+                if edges != 0 && (tier == Tier::Thorough || edges % 4 == 1) {
                     for k in 0..n {
-                        v.push(Config { n, edges, spelling: 0, named, lib: 3, missing: None, lib_includers: 1, new_pragma: Some(k) });
+                        v.push(Config { n, edges, spelling: 0, named, lib: 3, missing: None, lib_includers: 1, new_pragma: Some(k), bad_syntax: None });
+                        v.push(Config { n, edges, spelling: 0, named, lib: 3, missing: None, lib_includers: 1, new_pragma: None, bad_syntax: Some(k) });
                     }
                 }
                 // one edge retargeted to a missing file (first edge of the graph)
                 if let Some(bit) = (0..(n * n)).find(|b| edges >> b & 1 == 1) {
                     if tier == Tier::Thorough || edges % 4 == 1 {
-                        v.push(Config { n, edges, spelling: 0, named, lib: 3, missing: Some((bit / n, bit % n)), lib_includers: 1, new_pragma: None });
+                        v.push(Config { n, edges, spelling: 0, named, lib: 3, missing: Some((bit / n, bit % n)), lib_includers: 1, new_pragma: None, bad_syntax: None });
                     }
                 }
             }
@@ -373,7 +422,7 @@ pub fn configs(tier: Tier) -> Vec<Config> {
 
 fn case_of(c: &Config) -> Value {
     json!({"kind": "includes", "n": c.n, "edges": c.edges, "spelling": c.spelling, "named": c.named, "lib": c.lib, "lib_includers": c.lib_includers,
-        "missing": c.missing.map(|(i, j)| vec![i, j]), "new_pragma": c.new_pragma})
+        "missing": c.missing.map(|(i, j)| vec![i, j]), "new_pragma": c.new_pragma, "bad_syntax": c.bad_syntax})
 }
 
 pub fn run(run: &Run) {
@@ -424,6 +473,7 @@ pub fn replay(case: &Value) -> Vec<Violation> {
         missing: case["missing"].as_array().map(|a| (a[0].as_u64().unwrap_or(0) as usize, a[1].as_u64().unwrap_or(0) as usize)),
         lib_includers: case["lib_includers"].as_u64().unwrap_or(1) as u32,
         new_pragma: case["new_pragma"].as_u64().map(|k| k as usize),
+        bad_syntax: case["bad_syntax"].as_u64().map(|k| k as usize),
     };
     let root = work_dir("c19-replay");
     let out = check(&cfg, &root, case);
